@@ -13,7 +13,8 @@ TECHNIQUE = ('decision-table extraction: PowNode.compute_c_result_type (with the
              '(cpow x operand type kinds x exponent constant class x base sign class) and compared with docs/src/userguide/cpow_table.csv; '
              'path-sensitive contradiction analysis (L8) under the sentinel invariant of has_constant_result; template-key / emitted-call agreement; '
              'clang AST of the instantiated IntPow helper; truth table of the range guards around `ONE << n` over the complete boundary partition of n on ILP32/LP64/LLP64 '
-             '(C conversion rules applied by the checker\'s own evaluator)')
+             '(C conversion rules applied by the checker\'s own evaluator); interpretation of IntPow with an algebraic witness base (3 has order 2**62 modulo 2**64) and of __Pyx__PyNumber_PowerOf2 on a model PyLong '
+             '(rules/pC03.py); scoped-read / polarity / must-precede analysis of the cpow directive')
 DECIDES = ('(a) C07-L8: no value test on X.constant_result in PowNode is evaluated where `not X.has_constant_result()` holds (such a test is dead, so the '
            'widening it controls can never happen); '
            '(b) C07-TAB: for each of the ten cells of the documented cpow table every scenario of that cell gets the documented result kind '
@@ -26,8 +27,15 @@ DECIDES = ('(a) C07-L8: no value test on X.constant_result in PowNode is evaluat
            '(e) C07-POW2: PowNode.py_operation_function selects the 1<<N helper __Pyx_PyNumber_(InPlace)PowerOf2 only for a base whose constant value is the *int* 2 '
            '(not 2.0, not 2+0j), and the selected helper exists in the section it loads with the arity BinopNode emits for `**`; '
            '(f) C07-SHIFT: every power of two built as `ONE << n` in Optimize.c / CMath.c (the 1<<N fast path of __Pyx__PyNumber_PowerOf2) is reached only for shift counts that the enclosing '
-           'range guards keep within the value bits of the type of ONE (bits-2 for a signed, bits-1 for an unsigned literal) on ILP32, LP64 and LLP64 (rules/sC07.py).')
-NOT_DECIDED = ('values computed by the square-and-multiply loop of IntPow, by pow()/powf() and by __Pyx__PyNumber_PowerOf2 beyond the shift-width guards (how shiftby is obtained, exceptions, the fallback); '
+           'range guards keep within the value bits of the type of ONE (bits-2 for a signed, bits-1 for an unsigned literal) on ILP32, LP64 and LLP64 (rules/sC07.py); '
+           '(g) C07-POWLOOP: IntPow returns b**e - the unsigned 64-bit instance is evaluated by the checker\'s C interpreter for the witness base 3 (multiplicative order 2**62 modulo 2**64, so the value identifies '
+           'the exponent of the monomial computed) and every exponent 0..255 plus 2**k, 2**k +- 1 up to 2**40; the signed instance for small operands, 0 for negative exponents; '
+           '(h) C07-POW2MODEL: __Pyx__PyNumber_PowerOf2 evaluated on a model PyLong (LP64 / LLP64 / ILP32, with and without PyLong internals) returns 2 ** exp as CPython computes it for negative, zero, '
+           'every shift-width arm, beyond-Py_ssize_t and non-int exponents, never NULL without an exception; '
+           '(i) C07-CPOW: is_cpow is assigned from the scoped directive directives[\'cpow\'] (parameter scope, key known to Options, not the defaults, right polarity, reachable while is_cpow is None) '
+           'and infer_type / analyse_types call the assigning method before delegating upwards on every path.')
+NOT_DECIDED = ('IntPow for exponents beyond the evaluated bit patterns (the loop treats every bit alike) and signed overflow inside it (the helper squares once more than needed); values computed by pow()/powf(); '
+               'the accessor macros / C-API calls used by __Pyx__PyNumber_PowerOf2 (modelled by their contracts); '
                'that the operand types reaching compute_c_result_type are what the user wrote (coercions before PowNode); PowNode.coerce_to\'s fallback to '
                'cpow behaviour; complex operands (not in the documented table).  I5 via the generic emitted-call scanner was dropped: the callee of the '
                'emitted call is a run-time string (self.pow_func), the dedicated rule C07-INTPOW follows that attribute instead.')
@@ -73,6 +81,9 @@ MUTATIONS = [
     ('Cython/Utility/Optimize.c', '`1L << shiftby` -> `1 << shiftby` (int literal under the long bound); second arm shifts `((PY_LONG_LONG)1)` (signed)', 'C07-SHIFT: caught'),
     ('Cython/Utility/Optimize.c', 'first guard as `shiftby < (Py_ssize_t) (sizeof(long) * CHAR_BIT) - 1`; variable renamed + guard as `!(sizeof(long) * 8 - 2 < (size_t)n_bits)`; '
                                   'else-if chain turned into early return + `if ((size_t)shiftby < sizeof(unsigned PY_LONG_LONG) * 8)`', None),
+    ('mutants/C07/*', '14 + 5 brainstormed breaking edits (square-and-multiply loop: squaring dropped, bit select, shift by 2, missing init, loop bound; PowerOf2: IsNeg arm dropped, 2**0 == 0, shifting the object 2, '
+                      'signed converter for 2**63, error polarity, accessor arms exchanged; cpow read negated / from the defaults / not called / unreachable, ...) and 11 behaviour-preserving rewrites; see meta.json of each',
+     'C07-POWLOOP / C07-POW2MODEL / C07-CPOW'),
     # behaviour preserving (all silent)
     ('Cython/Compiler/ExprNodes.py', 'rename local needs_widening -> widen in compute_c_result_type', None),
     ('Cython/Compiler/ExprNodes.py', 'compute type2_is_int before op1_is_definitely_positive; swap the operands of both `or`s', None),
@@ -764,4 +775,7 @@ def run(ctx):
     rules.append(rule_POW2(ctx, dom, pow_cls))
     from ..rules import sC07
     rules.append(sC07.rule_shift(ctx))
+    rules.append(sC07.rule_powloop(ctx))
+    rules.append(sC07.rule_pow2model(ctx))
+    rules.append(sC07.rule_cpow(ctx))
     return rules
